@@ -282,3 +282,48 @@ REG.add(Contract(MD, "_gene_deletion", "C06", [("model", _model_t()), GIDS], [_g
                  key="_gene_deletion", props=["C06", "C14"],
                  axioms=lambda E: C3.run_axioms() + C7.sem_axioms(E, E.s0) + C7.nf_axiom() + C7.sem_mono_axioms(),
                  loops={0: LoopSpec(_g_inv, lambda E, Lc: C7.KO_MOD(E))}))
+
+
+# ---------------------------------------------------------------- pool workers (C14): the task as the Pool runs it
+# _init_worker(model) stores the worker's private model in the module global; _reaction_deletion_worker(ids) /
+# _gene_deletion_worker(ids) run _reaction_deletion / _gene_deletion ON THAT MODEL with exactly the ids of the task and return its
+# result unchanged - so everything proved for the two functions (measured with exactly the listed knock-outs, own context closed,
+# nothing stale reported) holds for every task of the parallel path as well.
+def _iw_del_post(E):
+    return z3.BoolVal(E.s1.ghost.get(("global", "_model")) is E["model"])
+
+
+REG.add(Contract(MD, "_init_worker", "C14", [("model", _model_t())], [Case("any", ensures=_iw_del_post)],
+                 modifies=lambda E: [("ghost", ("global", "_model"), lambda st: E["model"])], key="deletion._init_worker"))
+
+
+def _worker_hook_global(eng, name):
+    if name in ("_reaction_deletion", "_gene_deletion"):
+        return VFunc("abstract", name)
+    return None
+
+
+def _worker_call_abstract(eng, st, f, pos, kw):
+    if f.a in ("_reaction_deletion", "_gene_deletion"):
+        out = VTuple((pos[1], VReal(fresh("wg_k", z3.IntSort()), fresh("wg_v", z3.RealSort())), VStr(fresh("wstatus", Id))))
+        return [("ok", st.setghost("worker_call", (f.a, tuple(pos), dict(kw), out)), out)]
+    return None
+
+
+HOOKS_W = {"global": _worker_hook_global, "call_abstract": _worker_call_abstract}
+
+
+def _worker_post(fn):
+    def post(E):
+        c = E.s1.ghost.get("worker_call")
+        if c is None:
+            return z3.BoolVal(False)
+        name, pos, kw, out = c
+        return z3.BoolVal(name == fn and len(pos) == 2 and pos[0] is E["_model"] and pos[1] is E["ids"] and not kw and E.res is out)
+    return post
+
+
+for _w, _fn in (("_reaction_deletion_worker", "_reaction_deletion"), ("_gene_deletion_worker", "_gene_deletion")):
+    REG.add(Contract(MD, _w, "C14", [("ids", TList("id")), ("_model", _model_t())], [Case("any", ensures=_worker_post(_fn))],
+                     modifies=lambda E: [("ghost", "worker_call", lambda st: None)], key=_w,
+                     note="`_model` is the module global set by _init_worker (pseudo-parameter)"))
